@@ -1,6 +1,8 @@
 """C03 - cardinality correction subtracts the displaced-copy noise floor."""
 from __future__ import annotations
 
+from types import SimpleNamespace
+
 import numpy as np
 
 from mc import enum, est, refs, seqdiff
@@ -110,6 +112,18 @@ def _flags(_):
         for ty, ay in A:
             for tx, ax in A[::7]:
                 direct = {True: float(f(ay, ax, est._F1, True)), False: float(f(ay, ax, est._F1, False))}
+                # the dispatcher used by the pipeline must hand the estimator's value through unchanged (negative corrected scores included)
+                for name, flag in (('MI-numba-randomized', True), ('MI-numba-3mr', False)):
+                    a_ = SimpleNamespace(heuristic=name, mi_stratified_sampling_ratio=1.0)
+                    ok, s = safe(ie.conduct_feature_ranking, ay.astype(np.int8), ax.astype(np.int8), a_)
+                    st.count('evaluations')
+                    st.count('dispatch_cases')
+                    if direct[True] < -1e-3:
+                        st.count('dispatch_negative_scores')
+                    if not ok:
+                        st.violation({'Y': ty, 'X': tx, 'heuristic': name, 'dispatch': True}, f'exception {s}', {'kind': 'exception_dispatch'})
+                    elif float(s) != direct[flag]:
+                        st.violation({'Y': ty, 'X': tx, 'heuristic': name, 'dispatch': True}, f'conduct_feature_ranking({name}) = {float(s)!r}, estimator gives {direct[flag]!r}', {'kind': 'dispatch', 'heuristic': name})
                 for name, flag in (('MI-numba-randomized', True), ('MI-numba-3mr', False), ('MI-numba', False)):
                     ok, s = safe(ie.numba_mi, ay.astype(np.int8), ax.astype(np.int8), name, 1.0)
                     st.count('evaluations')
@@ -174,6 +188,12 @@ def eval_case(case):
         return [] if sp > sn else [f'planted {sp!r} <= noise {sn!r}']
     ty, tx = tuple(case['Y']), tuple(case['X'])
     ay, ax = np.array(ty, dtype=np.int32), np.array(tx, dtype=np.int32)
+    if 'heuristic' in case and case.get('dispatch'):
+        from outrank.algorithms import importance_estimator as ie
+        name = case['heuristic']
+        s = float(ie.conduct_feature_ranking(ay.astype(np.int8), ax.astype(np.int8), SimpleNamespace(heuristic=name, mi_stratified_sampling_ratio=1.0)))
+        d = float(f(ay, ax, est._F1, name == 'MI-numba-randomized'))
+        return [] if s == d else [f'conduct_feature_ranking({name})={s!r} estimator={d!r}']
     if 'heuristic' in case:
         from outrank.algorithms import importance_estimator as ie
         name = case['heuristic']
